@@ -237,7 +237,13 @@ func (subsDom) Exec(a []string) string {
 		default:
 			s.Handle("res", opts...)
 		}
-		if !(rnil && anil) {
+		// "sets the patterns": the last call decides, whatever was set before it - also when it puts a
+		// list back to nil (= the default ownership). Every other line sets stale lists first.
+		stale := (len(kinds)+len(rl)+len(al))%2 == 1
+		if stale {
+			s.SetOwnedResources([]string{"stale.>"}, []string{"stale.a", "stale.b.*"})
+		}
+		if stale || !(rnil && anil) {
 			// SetOwnedResources replaces both; nil stays nil
 			var rr, aa []string
 			if !rnil {
